@@ -21,6 +21,9 @@ pub use data_structures::*;
 #[cfg(test)]
 mod tests;
 mod utils;
+/// Accessors for external conformance harnesses (only with `--cfg pc_verif`).
+#[cfg(pc_verif)]
+pub mod verif_hooks;
 /// String of bytes used to seed the randomness during the setup function.
 /// Note that the latter should never be used in production environments.
 pub const PROTOCOL_NAME: &'static [u8] = b"Hyrax protocol";
